@@ -1,6 +1,224 @@
 package main
 
-// Replay of counterexamples on the real code (filled in per obligation family).
+// Replay of counterexamples on the real code. Each family turns the solver's model (where it fixes the
+// function's input) or a small model-guided candidate set into an in-package Go test that is injected with
+// `go test -overlay` (nothing is written to /repo) and evaluates the violated clause on the real function.
+
+import (
+	"encoding/json"
+	"fmt"
+	"go/constant"
+	"os"
+	"os/exec"
+	"path/filepath"
+	"regexp"
+	"sort"
+	"strconv"
+	"strings"
+	"time"
+
+	"golang.org/x/tools/go/ssa"
+)
 
 func tryReplay(r *Run, o *Oblig, rep *Replay) {
+	fn := o.vc.root
+	defer func() {
+		if rec := recover(); rec != nil {
+			rep.Note = fmt.Sprintf("replay harness failed: %v", rec)
+		}
+	}()
+	name := fn.String()
+	switch {
+	case strings.HasPrefix(name, r.e.modPath+"/internal/protocol.Parse") || name == r.e.modPath+"/internal/protocol.errWrongNumber":
+		replayParser(r, o, rep)
+	}
+}
+
+var reModelInt = regexp.MustCompile(`\(define-fun \|?([^ |]+)\|? \(\) Int\s+(\(- )?(\d+)\)?\)`)
+
+func modelInts(model string) map[string]int64 {
+	out := map[string]int64{}
+	for _, m := range reModelInt.FindAllStringSubmatch(model, -1) {
+		v, err := strconv.ParseInt(m[3], 10, 64)
+		if err != nil {
+			continue
+		}
+		if m[2] != "" {
+			v = -v
+		}
+		out[m[1]] = v
+	}
+	return out
+}
+
+func stringLits(fn *ssa.Function) []string {
+	seen := map[string]bool{}
+	var out []string
+	for _, b := range fn.Blocks {
+		for _, in := range b.Instrs {
+			for _, op := range in.Operands(nil) {
+				if c, ok := (*op).(*ssa.Const); ok && c.Value != nil && c.Value.Kind() == constant.String {
+					s := constant.StringVal(c.Value)
+					if !seen[s] && len(s) > 0 && len(s) < 16 && !strings.Contains(s, " ") {
+						seen[s] = true
+						out = append(out, s)
+					}
+				}
+			}
+		}
+	}
+	sort.Strings(out)
+	return out
+}
+
+// replayParser: argument vectors for protocol parsers. The model gives the argument count at entry and/or at the
+// loop head (the rest of the vector at an arbitrary iteration); candidates are built from those counts and the
+// option literals of the function, and every candidate is run against the real parser under recover + watchdog.
+func replayParser(r *Run, o *Oblig, rep *Replay) {
+	fn := o.vc.root
+	ints := modelInts(o.Model)
+	var lens []int
+	addLen := func(n int64) {
+		if n >= 0 && n <= 12 {
+			for _, x := range lens {
+				if x == int(n) {
+					return
+				}
+			}
+			lens = append(lens, int(n))
+		}
+	}
+	var suffixLens []int
+	for k, v := range ints {
+		if strings.Contains(k, "Args_len") || strings.HasPrefix(k, "p$args_len") {
+			addLen(v)
+		}
+		if strings.HasPrefix(k, "lh$") && strings.Contains(k, "_len") && v >= 0 && v <= 6 {
+			suffixLens = append(suffixLens, int(v))
+		}
+	}
+	for n := 1; n <= 8; n++ {
+		addLen(int64(n))
+	}
+	toks := append(stringLits(fn), "1", "x", "")
+	var cands [][]string
+	seen := map[string]bool{}
+	add := func(c []string) {
+		k := strings.Join(c, "\x00")
+		if !seen[k] && len(cands) < 4000 {
+			seen[k] = true
+			cands = append(cands, c)
+		}
+	}
+	fill := func(n int) []string {
+		c := make([]string, n)
+		for i := range c {
+			c[i] = "1"
+		}
+		if n > 0 {
+			c[0] = "cmd"
+		}
+		return c
+	}
+	for _, n := range lens {
+		add(fill(n))
+	}
+	// prefix of k plain arguments followed by one or two option tokens
+	for k := 1; k <= 6; k++ {
+		for _, a := range toks {
+			add(append(fill(k), a))
+			for _, b := range toks {
+				add(append(fill(k), a, b))
+			}
+		}
+	}
+	_ = suffixLens
+	isErrWrong := strings.HasSuffix(fn.String(), ".errWrongNumber")
+	var sb strings.Builder
+	sb.WriteString("package protocol\n\nimport (\n\t\"fmt\"\n\t\"testing\"\n\t\"time\"\n\n\t\"github.com/tidwall/redcon\"\n)\n\nvar _ = redcon.Command{}\n\n")
+	sb.WriteString("func TestVerifReplay(t *testing.T) {\n\tcands := [][]string{\n")
+	for _, c := range cands {
+		sb.WriteString("\t\t{")
+		for i, s := range c {
+			if i > 0 {
+				sb.WriteString(", ")
+			}
+			sb.WriteString(strconv.Quote(s))
+		}
+		sb.WriteString("},\n")
+	}
+	sb.WriteString("\t}\n\tfor _, c := range cands {\n\t\targs := make([][]byte, len(c))\n\t\tfor i := range c {\n\t\t\targs[i] = []byte(c[i])\n\t\t}\n")
+	sb.WriteString("\t\tdone := make(chan string, 1)\n\t\tgo func() {\n\t\t\tdefer func() {\n\t\t\t\tif r := recover(); r != nil {\n\t\t\t\t\tdone <- fmt.Sprint(\"panic: \", r)\n\t\t\t\t}\n\t\t\t}()\n")
+	if isErrWrong {
+		sb.WriteString("\t\t\tif err := errWrongNumber(args); err == nil {\n\t\t\t\tdone <- \"nil error\"\n\t\t\t\treturn\n\t\t\t}\n")
+	} else {
+		fmt.Fprintf(&sb, "\t\t\tres, err := %s(redcon.Command{Args: args})\n\t\t\tif err == nil && res == nil {\n\t\t\t\tdone <- \"nil result without error\"\n\t\t\t\treturn\n\t\t\t}\n", fn.Name())
+	}
+	sb.WriteString("\t\t\tdone <- \"\"\n\t\t}()\n\t\tselect {\n\t\tcase r := <-done:\n\t\t\tif r != \"\" {\n\t\t\t\tfmt.Printf(\"REPRODUCED args=%q: %s\\n\", c, r)\n\t\t\t\treturn\n\t\t\t}\n")
+	sb.WriteString("\t\tcase <-time.After(700 * time.Millisecond):\n\t\t\tfmt.Printf(\"REPRODUCED args=%q: does not return (watchdog 700ms)\\n\", c)\n\t\t\treturn\n\t\t}\n\t}\n\tfmt.Println(\"NOT-REPRODUCED\")\n}\n")
+	out, ok := runOverlayTest(r, "internal/protocol", "zz_verif_replay_test.go", sb.String(), "TestVerifReplay")
+	rep.Test = "in-package test of " + fn.Name() + " over " + strconv.Itoa(len(cands)) + " argument vectors (model-guided lengths " + fmt.Sprint(lens[:minInt(len(lens), 4)]) + ", option literals of the function, prefix <= 6, suffix <= 2)"
+	rep.TestOutput = tail(out, 1500)
+	if ok {
+		for _, l := range strings.Split(out, "\n") {
+			if strings.HasPrefix(l, "REPRODUCED") {
+				rep.Reproduced = true
+				rep.Inputs = l
+				rep.Note = "failing input found and confirmed on the real code"
+			}
+		}
+	}
+}
+
+func minInt(a, b int) int {
+	if a < b {
+		return a
+	}
+	return b
+}
+
+func tail(s string, n int) string {
+	if len(s) > n {
+		return s[len(s)-n:]
+	}
+	return s
+}
+
+// runOverlayTest injects a test file into a package of /repo through -overlay and runs it.
+func runOverlayTest(r *Run, pkgDir, fileName, src, runPat string) (string, bool) {
+	dir, err := os.MkdirTemp("", "govc-replay-")
+	if err != nil {
+		return err.Error(), false
+	}
+	defer os.RemoveAll(dir)
+	tf := filepath.Join(dir, fileName)
+	if err := os.WriteFile(tf, []byte(src), 0o644); err != nil {
+		return err.Error(), false
+	}
+	ov := map[string]map[string]string{"Replace": {filepath.Join(r.e.repoDir, pkgDir, fileName): tf}}
+	data, _ := json.Marshal(ov)
+	ovf := filepath.Join(dir, "ov.json")
+	os.WriteFile(ovf, data, 0o644)
+	cmd := exec.Command("go", "test", "-overlay", ovf, "-vet=off", "-v", "-count=1", "-timeout", "60s", "-run", "^"+runPat+"$", "./"+pkgDir)
+	cmd.Dir = r.e.repoDir
+	cmd.Env = append(os.Environ(), "GOFLAGS=-mod=mod", "GOPROXY=off", "GOSUMDB=off", "GOTOOLCHAIN=local", "GOCACHE="+filepath.Join(dir, "gocache"))
+	// reuse the default build cache when available (faster); fall back to the scratch one
+	if home, err := os.UserCacheDir(); err == nil {
+		cmd.Env = append(cmd.Env, "GOCACHE="+filepath.Join(home, "go-build"))
+	}
+	done := make(chan struct{})
+	var out []byte
+	go func() {
+		out, err = cmd.CombinedOutput()
+		close(done)
+	}()
+	select {
+	case <-done:
+	case <-time.After(120 * time.Second):
+		if cmd.Process != nil {
+			cmd.Process.Kill()
+		}
+		return "replay timed out", false
+	}
+	return string(out), true
 }
